@@ -20,7 +20,7 @@ EXTENDS Store, Lookups, Json, IOUtils
 Trace == ndJsonDeserialize(IOEnv.TRACE_FILE)
 
 VARIABLES l,
-          cache,    \* Layer B: [1..2 -> set of [k, val, off, dver, fver, racy, ferr]]
+          cache,    \* Layer B: [1..2 -> [bucket -> set of [k, val, off, dver, fver, racy, ferr]]]
           clears,   \* Layer B: [1..2 -> Nat] Clears of the handle's cache so far
           ver,      \* number of changes of the wrapped graph's content seen so far
           prevc,    \* listing of the wrapped graph at the previous event
@@ -35,6 +35,11 @@ Hs == 1..2
 KeyOf(q) == [q EXCEPT !.off = 0]                      \* LookupOptions.String() does not print Offset
 Cacheable(q, val) == q.m = "Exist" \/ val # <<>>       \* `if v != nil`
 
+\* the model cache of a handle is bucketed (plain integer hash of the arguments) to keep look-ups cheap
+NB == 512
+Bkt(q) == (q.s + 5 * q.cp + 75 * q.o + 7 * q.t) % NB
+EmptyCache == [b \in 0..(NB - 1) |-> {}]
+
 St0 == [missed |-> FALSE, hit |-> {}, win |-> <<>>, dver |-> 0, cchk |-> 0]
 
 PlOf(pid) == LET S == {i \in DOMAIN e.pl : e.pl[i].pid = pid}
@@ -44,7 +49,7 @@ Ver1 == IF e.c # prevc THEN ver + 1 ELSE ver
 
 \* ---- one G event ------------------------------------------------------------------------------------
 StA == IF e.first
-       THEN [st EXCEPT ![e.pid] = [St0 EXCEPT !.hit = IF e.kind = "r" THEN {x \in cache[e.h] : x.k = KeyOf(e.q)} ELSE {},
+       THEN [st EXCEPT ![e.pid] = [St0 EXCEPT !.hit = IF e.kind = "r" THEN {x \in cache[e.h][Bkt(e.q)] : x.k = KeyOf(e.q)} ELSE {},
                                               !.dver = Ver1, !.cchk = clears[e.h]]]
        ELSE st
 StB == [i \in Pids |-> [StA[i] EXCEPT !.win = @ \o PlOf(i)]]
@@ -70,7 +75,7 @@ ReadClass(s, v1) ==
 
 Filled(s, v1) ==
           IF s.missed /\ Cacheable(e.q, e.res) /\ (e.q.m = "Exist" => ~e.err)
-          THEN [cache EXCEPT ![e.h] = {x \in @ : x.k # KeyOf(e.q)} \cup
+          THEN [cache EXCEPT ![e.h][Bkt(e.q)] = {x \in @ : x.k # KeyOf(e.q)} \cup
                    {[k |-> KeyOf(e.q), val |-> e.res, off |-> e.q.off, dver |-> s.dver, fver |-> v1,
                      racy |-> clears[e.h] > s.cchk, ferr |-> e.err]}]
           ELSE cache
@@ -90,7 +95,7 @@ StepG ==
               /\ cache' = Filled(s, v1)
               /\ UNCHANGED <<clears, graphs, content>>
          [] e.kind = "w" /\ e.at = "write.cleared" ->
-              /\ cache' = [cache EXCEPT ![e.h] = {}]
+              /\ cache' = [cache EXCEPT ![e.h] = EmptyCache]
               /\ clears' = [clears EXCEPT ![e.h] = @ + 1]
               /\ UNCHANGED <<graphs, content>>
          [] e.kind = "w" /\ e.at = "ret" ->
@@ -101,7 +106,7 @@ StepG ==
                       /\ content' = [content EXCEPT ![G0] = Range(e.c) \cap (1..NTall)]
               /\ UNCHANGED <<cache, clears, graphs>>
          [] e.kind = "n" ->
-              /\ cache' = [cache EXCEPT ![e.h] = {}]
+              /\ cache' = [cache EXCEPT ![e.h] = EmptyCache]
               /\ UNCHANGED <<clears, graphs, content>>
          [] OTHER -> UNCHANGED <<cache, clears, graphs, content>>
 
@@ -109,7 +114,7 @@ StepReset ==
     /\ e.ev = "Reset"
     /\ graphs' = {G0}
     /\ content' = [n \in NameSet |-> IF n = G0 THEN Range(e.c) \cap (1..NTall) ELSE {}]
-    /\ cache' = [h \in Hs |-> {}]
+    /\ cache' = [h \in Hs |-> EmptyCache]
     /\ clears' = [h \in Hs |-> 0]
     /\ ver' = 0 /\ prevc' = e.c
     /\ st' = [i \in Pids |-> St0]
@@ -121,7 +126,7 @@ TraceInit == /\ l = 1
              /\ graphs = {G0}
              /\ content = [n \in NameSet |-> {}]
              /\ last = [op |-> "Init", g |-> "", b |-> <<>>, ok |-> TRUE]
-             /\ cache = [h \in Hs |-> {}]
+             /\ cache = [h \in Hs |-> EmptyCache]
              /\ clears = [h \in Hs |-> 0]
              /\ ver = 0 /\ prevc = <<>>
              /\ st = [i \in Pids |-> St0]
@@ -132,6 +137,9 @@ TraceNext == /\ l <= Len(Trace)
              /\ UNCHANGED last
 
 TraceSpec == TraceInit /\ [][TraceNext]_tvars
+
+\* the trace is linear: the line number identifies the state (keeps fingerprinting independent of the cache size)
+TView == l
 
 Consumed == TLCGet("stats").diameter = Len(Trace) + 1
 =============================================================================
